@@ -241,7 +241,8 @@ def _run(ctx, prop, replay):
         "notes": ctx.notes, "spec_decisions": getattr(prop, "SPEC_DECISIONS", []),
     }
     cov.update(ctx.cov)
-    C.write_evidence(ctx, "proof", cov, prop.ASSUMPTIONS, nviol)
+    if not replay:          # a replay run looks at one stored case: it must not overwrite the evidence of the last full run
+        C.write_evidence(ctx, "proof", cov, prop.ASSUMPTIONS, nviol)
     for l in out_lines:
         print(l)
     print("== %s done: %d theorems, %d cases, %d tie breaks, %d contradictions, %.1fs, exit %d" % (
